@@ -95,6 +95,9 @@ type FaultReader struct {
 	Delay    time.Duration
 	Hit      bool
 	HitKind  string
+	// MaxRead, when > 0, is the most a Read delivers: with a buffered
+	// consumer the call index then walks through the stream in small steps.
+	MaxRead int
 }
 
 func NewFaultReader(data []byte) *FaultReader { return &FaultReader{data: data} }
@@ -124,6 +127,9 @@ func (r *FaultReader) Read(p []byte) (int, error) {
 	}
 	r.mu.Lock()
 	defer r.mu.Unlock()
+	if r.MaxRead > 0 && len(p) > r.MaxRead {
+		p = p[:r.MaxRead]
+	}
 	if f {
 		if r.Partial && r.pos < int64(len(r.data)) && len(p) > 1 {
 			n := copy(p[:len(p)/2], r.data[r.pos:])
